@@ -39,6 +39,7 @@ func main() {
 		debug := fs.Bool("debug", false, "panic on engine errors")
 		dump := fs.Bool("dump", false, "keep and list SMT files")
 		timeout := fs.Int("timeout", 0, "per-query timeout (s)")
+		noevid := fs.Bool("noevidence", false, "do not rewrite the evidence file (used when checking seeded changes)")
 		var overlays multiFlag
 		fs.Var(&overlays, "overlay", "path=replacementfile (in-memory patch of a /repo file)")
 		fs.Parse(os.Args[3:])
@@ -62,7 +63,7 @@ func main() {
 			}
 			o.NoEvid = true
 		}
-		if *only != "" {
+		if *only != "" || *noevid {
 			o.NoEvid = true
 		}
 		res := RunCheck(o)
